@@ -244,8 +244,27 @@ pub fn some_cmds(rng: &mut Rng, region: &str, max_len: usize) -> Vec<u8> {
 /// Class of a rejected frame for the histogram
 pub fn rejected_frame(rng: &mut Rng, h: &Hist) -> (Vec<u8>, Option<u32>, &'static str) {
     let last = h.last_down;
-    match rng.below(8) {
+    match rng.below(9) {
         0 => ({ let n = rng.below(40) as usize; rng.bytes(n) }, None, "rej-random"),
+        8 => {
+            // a frame that verifies at the next fresh counter but whose FOptsLen claims 1..3 octets more
+            // than there are between FCnt and the MIC (no FPort, no payload): not a well-formed data
+            // frame, whatever its MIC says
+            let fcnt = last.map(|l| l.wrapping_add(1)).unwrap_or(0);
+            let mut d = DownDesc::new(h.devaddr, fcnt);
+            d.nwk = h.nwk;
+            d.app = h.app;
+            d.confirmed = rng.chance(1, 2);
+            let k = *rng.pick(&[0usize, 0, 1, 3, 5]);
+            d.fopts = rng.bytes(k);
+            let mut b = d.build().unwrap();
+            let over = 1 + rng.below(3) as u8;
+            b[5] = (b[5] & 0xf0) | ((k as u8 + over) & 0x0f);
+            let n = b.len() - 4;
+            let mic = crate::refcodec::data_mic(&h.nwk, &b[..n], 1, &b[1..5], fcnt);
+            b[n..].copy_from_slice(&mic);
+            (b, Some(fcnt), "rej-foptslen-overrun-valid-mic")
+        }
         7 => {
             // a frame that verifies at the next fresh counter but whose MHDR is not that of a
             // LoRaWAN R1 data frame (another major version, or a non-data message type); the MIC
